@@ -1,64 +1,136 @@
-"""SMT back end: the path condition is kept in Python; every query is a one-shot cvc5 run with a time limit
-(measured faster and more predictable on string constraints than a long-lived incremental process)."""
-import subprocess, time, re, os, hashlib
+"""SMT back end. The path condition is kept in Python. Queries go first to a persistent `cvc5 --incremental` process
+(short per-query limit; removes the process start-up cost that dominates thousands of small queries); a query it cannot
+answer in that limit (string-heavy ones stall in incremental mode) is re-run one-shot with the full time limit.
+`unknown` and any `(error` line are never treated as unsat."""
+import subprocess, time, re, os, hashlib, select
 
 CVC5 = ["cvc5", "--lang", "smt2", "--strings-exp"]
+HEADER = "(set-logic ALL)\n(set-option :produce-models true)\n"
+
+class Inc:
+    """persistent incremental cvc5"""
+    def __init__(self, tlimit_ms):
+        self.p = subprocess.Popen(CVC5 + ["--incremental", "--tlimit-per=%d" % tlimit_ms], stdin=subprocess.PIPE, stdout=subprocess.PIPE, stderr=subprocess.STDOUT, text=True, bufsize=1)
+        self.tl = tlimit_ms
+        self.send(HEADER); self.send("(push 1)")
+    def send(self, s): self.p.stdin.write(s + "\n"); self.p.stdin.flush()
+    def readline(self, timeout):
+        r, _, _ = select.select([self.p.stdout], [], [], timeout)
+        if not r: return None
+        return self.p.stdout.readline()
+    def alive(self): return self.p.poll() is None
+    def kill(self):
+        try: self.p.kill(); self.p.wait(timeout=2)
+        except Exception: pass
 
 class Solver:
-    def __init__(self, tlimit_ms=5000, log_dir=None):
-        self.decls = []; self.asserts = []; self.marks = []
-        self.queries = 0; self.time = 0.0; self.cache = {}; self.stats = {"sat": 0, "unsat": 0, "unknown": 0, "cached": 0}
-        self.tlimit = tlimit_ms; self.log_dir = log_dir; self.declared = set()
+    def __init__(self, tlimit_ms=5000, log_dir=None, fast_ms=400):
+        self.items = []; self.hash = 0
+        self.queries = 0; self.time = 0.0; self.cache = {}; self.stats = {"sat": 0, "unsat": 0, "unknown": 0, "cached": 0, "oneshot": 0}
+        self.tlimit = tlimit_ms; self.log_dir = log_dir; self.declared = set(); self.fast_ms = fast_ms
+        self.inc = None; self.sent = 0
+    # --- path condition
     def reset(self):
-        self.decls = []; self.asserts = []; self.declared = set()
+        self.items = []; self.declared = set(); self.hash = 0
+        if self.inc is not None and self.inc.alive():
+            try: self.inc.send("(pop 1)\n(push 1)")
+            except Exception: self.inc.kill(); self.inc = None
+        self.sent = 0
     def declare(self, name, sort):
         if name not in self.declared:
-            self.declared.add(name); self.decls.append("(declare-fun %s () %s)" % (name, sort))
-    def add(self, t): self.asserts.append(t)
-    def script(self, extra_asserts=(), tail=""):
-        return ("(set-logic ALL)\n(set-option :produce-models true)\n" + "\n".join(self.decls) + "\n" +
-                "\n".join("(assert %s)" % a for a in self.asserts) + "\n" + "\n".join("(assert %s)" % a for a in extra_asserts) + "\n(check-sat)\n" + tail)
-    def run(self, script):
-        t = time.time()
+            self.declared.add(name); self._add("(declare-fun %s () %s)" % (name, sort))
+    def add(self, t): self._add("(assert %s)" % t)
+    def _add(self, item):
+        self.items.append(item); self.hash = hash((self.hash, item))
+    def script(self, extra=(), tail=""):
+        return HEADER + "\n".join(self.items) + "\n" + "\n".join("(assert %s)" % a for a in extra) + "\n(check-sat)\n" + tail
+    # --- incremental attempt
+    def _inc_query(self, extra, names=None):
+        """returns (status, model_text|None); status in sat/unsat/unknown"""
+        try:
+            if self.inc is None or not self.inc.alive():
+                self.inc = Inc(self.fast_ms); self.sent = 0
+            inc = self.inc
+            if self.sent < len(self.items):
+                inc.send("\n".join(self.items[self.sent:])); self.sent = len(self.items)
+            q = "(push 1)\n" + "\n".join("(assert %s)" % a for a in extra) + "\n(check-sat)"
+            inc.send(q)
+            ln = inc.readline(self.fast_ms / 1000.0 + 5)
+            if ln is None:
+                inc.kill(); self.inc = None; return "unknown", None
+            st = ln.strip()
+            if st not in ("sat", "unsat"):
+                # error or unknown: drain nothing more (one line per check-sat), resync by restarting on errors
+                if st.startswith("(error") or st == "":
+                    inc.kill(); self.inc = None; return "unknown", None
+                inc.send("(pop 1)"); return "unknown", None
+            mt = None
+            if st == "sat" and names:
+                inc.send("(get-value (%s))" % " ".join(names))
+                buf = ""; depth = 0
+                while True:
+                    l2 = inc.readline(10)
+                    if l2 is None: inc.kill(); self.inc = None; return "unknown", None
+                    buf += l2; depth += l2.count("(") - l2.count(")")
+                    if depth <= 0 and buf.strip(): break
+                if "(error" in buf: inc.kill(); self.inc = None; return "unknown", None
+                mt = buf
+            inc.send("(pop 1)")
+            return st, mt
+        except (BrokenPipeError, OSError, ValueError):
+            if self.inc: self.inc.kill()
+            self.inc = None
+            return "unknown", None
+    def _oneshot(self, script):
+        self.stats["oneshot"] += 1
         try:
             p = subprocess.run(CVC5 + ["--tlimit=%d" % self.tlimit], input=script, capture_output=True, text=True, timeout=self.tlimit / 1000.0 + 10)
-            out = p.stdout
+            return p.stdout
         except subprocess.TimeoutExpired:
-            out = "unknown\n"
-        self.time += time.time() - t
-        return out
+            return "unknown\n"
     def check(self, extra=()):
         """sat / unsat / unknown for path condition + extra"""
         self.queries += 1
-        s = self.script(extra)
-        r = self.cache.get(s)
+        key = (self.hash, tuple(extra))
+        r = self.cache.get(key)
         if r is not None:
             self.stats["cached"] += 1; return r
-        out = self.run(s)
-        first = out.strip().split("\n")[0] if out.strip() else "unknown"
-        if "(error" in out or first not in ("sat", "unsat"): first = "unknown"
-        self.cache[s] = first; self.stats[first] += 1
-        if self.log_dir and first == "unknown":
-            os.makedirs(self.log_dir, exist_ok=True)
-            open(os.path.join(self.log_dir, "unknown_%s.smt2" % hashlib.sha1(s.encode()).hexdigest()[:10]), "w").write(s)
-        return first
+        t = time.time()
+        st, _ = self._inc_query(extra)
+        if st == "unknown":
+            s = self.script(extra)
+            out = self._oneshot(s)
+            first = out.strip().split("\n")[0] if out.strip() else "unknown"
+            if "(error" in out or first not in ("sat", "unsat"): first = "unknown"
+            st = first
+            if self.log_dir and st == "unknown":
+                os.makedirs(self.log_dir, exist_ok=True)
+                open(os.path.join(self.log_dir, "unknown_%s.smt2" % hashlib.sha1(s.encode()).hexdigest()[:10]), "w").write(s)
+        self.time += time.time() - t
+        self.cache[key] = st; self.stats[st] += 1
+        return st
     def model(self, names, extra=()):
         """returns (status, {name: python value}) for path condition + extra"""
         if not names:
             return self.check(extra), {}
         self.queries += 1
-        out = self.run(self.script(extra, "(get-value (%s))\n" % " ".join(names)))
-        lines = out.strip().split("\n")
-        first = lines[0] if lines else "unknown"
-        if "(error" in out and first != "sat": return "unknown", {}
-        if first != "sat": return (first if first == "unsat" else "unknown"), {}
-        return "sat", parse_model(" ".join(lines[1:]))
+        t = time.time()
+        st, mt = self._inc_query(extra, names)
+        if st == "unknown":
+            out = self._oneshot(self.script(extra, "(get-value (%s))\n" % " ".join(names)))
+            lines = out.strip().split("\n")
+            first = lines[0] if lines else "unknown"
+            if first == "sat" and "(error" not in out: st, mt = "sat", " ".join(lines[1:])
+            elif first == "unsat": st = "unsat"
+            else: st = "unknown"
+        self.time += time.time() - t
+        if st != "sat": return st, {}
+        return "sat", parse_model(mt or "")
 
 def parse_model(txt):
     """((a 1) (b (- 2)) (s "x""y") (t true))"""
     vals = {}
     i = 0; n = len(txt)
-    # tokenise
     toks = []
     while i < n:
         c = txt[i]
